@@ -3,7 +3,7 @@ Chain of link contracts on real code (each proved in the unit named) + the fold 
 import z3
 from pyvc.driver import Unit, check_property
 from pyvc.values import *
-from . import async_node, async_conn, compiled, c14, c07
+from . import async_node, async_conn, async_record, compiled, c14, c07
 
 
 class FoldLemma(Unit):
@@ -26,7 +26,7 @@ class FoldLemma(Unit):
         ctx.ensure("base: before any message the ring holds W initial entries (positions -W..-1 of the stream)", z3.Implies(z3.And(0 <= j, j < W, p == 0), old(j) == S(j - W)))
 
 
-UNITS = [u for u in async_node.UNITS + async_conn.UNITS + compiled.UNITS + c14.UNITS + c07.UNITS if "C01" in u.props] + [FoldLemma()]
+UNITS = [u for u in async_node.UNITS + async_conn.UNITS + async_record.UNITS + compiled.UNITS + c14.UNITS + c07.UNITS if "C01" in u.props] + [FoldLemma()]
 EXTRA = dict(
     assumptions=["composition over a topological order of vertices (every link's postcondition feeds the next link's precondition) is a written argument (DESIGN 6/C01), exercised end to end by the bounded stand-in",
                  "the supergraph library returns a monomorphism (C07, assumed; instance-validated there)", "node.step is a function of its StepState (assumption on user code)",
